@@ -27,7 +27,7 @@ RULE = ("full in-memory stack: real Router + 1..3 generated drivers (1-3 groups,
 ASSUMPTIONS = ["BLOB payloads are compared by C08; Element.enabled toggles at run time are not in the quantifier",
                "numbers are compared numerically within the format's resolution",
                "a device without enabled properties may or may not be listed"]
-REQUIRED_EVENTS = ["sessions", "client_submits_with_nothing_assigned", "client_handshakes_for_one_device", "sessions_with_a_tty_client", "tty_client_properties_compared", "sessions_with_lagging_blob_link", "driver_ops_during_handshake", "checkpoints", "library_client_properties_compared", "reference_mirror_messages",
+REQUIRED_EVENTS = ["sessions", "sessions_with_a_slow_blob_connect", "client_submits_with_nothing_assigned", "client_handshakes_for_one_device", "sessions_with_a_tty_client", "tty_client_properties_compared", "sessions_with_lagging_blob_link", "driver_ops_during_handshake", "checkpoints", "library_client_properties_compared", "reference_mirror_messages",
                    "snooping_client_checkpoints", "ops_with_bytes_in_flight", "depth3_sessions"]
 
 QUICK_SHARDS = 4
@@ -232,6 +232,10 @@ async def session(ctx, case):
             tty.stdin.feed('<getProperties version="1.7"/>\n')
             ctx.count("sessions_with_a_tty_client")
         sess.tty = tty
+        if case["i"] % 5 == 4:
+            # the BLOB connection takes a while to come up; the server meanwhile answers on the control connection
+            sess.connect_delay["blob"] = ctx.rng("slow-blob", case["i"]).choice([2, 5, 20, 80])
+            ctx.count("sessions_with_a_slow_blob_connect")
         client = await sess.make_client()
         mirror = fullstack.MultiMirror([client._vf_links[0].s2c, client._vf_links[1].s2c])
         snooper = None
